@@ -94,7 +94,11 @@ func famCodec6(w *World) {
 			if scnChance(1, 4) {
 				span = wire.Span{SpanID: ^uint64(0), ParentID: ^uint64(0) >> 1, TraceID: 1 << 63, Flags: 0xff}
 			}
-			hdrs := []wire.KV{{K: "cn", V: str([]int{1, 2, 255, 17}[scn(4)], "cn"+method)}, {K: "as", V: []string{"raw", "json", "thrift", "http", "x"}[scn(5)]}}
+			hdrs := []wire.KV{{K: "cn", V: str([]int{1, 2, 255, 17}[scn(4)], "cn"+method)}, {K: "as", V: []string{"raw", "json", "thrift", "http", "x", ""}[scn(6)]}}
+			if scnChance(1, 6) {
+				hdrs = hdrs[:1] // no arg scheme header at all (a non-Go client may omit it)
+				w.probe("C06.request-without-arg-scheme")
+			}
 			if scnChance(1, 2) {
 				hdrs = append(hdrs, wire.KV{K: "sk", V: str([]int{0, 1, 255, 9}[scn(4)], "sk"+method)})
 			}
